@@ -195,8 +195,6 @@ func errText(s, dir string) string { return strings.ReplaceAll(s, dir, "<dir>") 
 
 // ---------- known-finding classifiers ----------
 
-const namedPortErr = "cannot convert named port for an IP destination"
-
 // canonSelectors rewrites every representative-selector spelling "... with {...}" to a canonical one.
 func canonSelectors(s string) string {
 	var b strings.Builder
